@@ -255,7 +255,7 @@ def solve_query(q, getv, cap, quick_cap=3.0, want_model=False):
     """returns dict(verdict, solver, t, model?) ; verdict in sat/unsat/undecided"""
     t0 = time.time()
     # stage 1: z3 on the lemma form, short cap (decides small widths and most satisfiable paths on one core)
-    v, t, _ = _run_one(SOLVERS['z3'][0], q['lemma'], min(quick_cap, cap))
+    v, t, _ = _run_one(SOLVERS['z3'][0], q['lemma'], min(quick_cap, cap)) if quick_cap > 0 else ('skipped', 0, '')
     tried = {'z3': v}
     who = 'z3'
     if v not in ('sat', 'unsat'):
@@ -337,6 +337,15 @@ def decide_kernels(jobs, build, cap=60, workers=14, seed=0, validate_n=40, log=p
             return solve_query(q, ex['getv'], job.get('cap', cap), want_model=want)
         with cf.ThreadPoolExecutor(max_workers=max(2, workers // 2)) as tp:
             solved = list(tp.map(work, items))
+        # retry what stayed undecided once, alone-ish, with a 3x cap (DESIGN.md 3.5)
+        redo = [i for i, s in enumerate(solved) if s['verdict'] == 'undecided' and items[i][2]['expect'] == 'unsat']
+        if redo:
+            def work2(i):
+                job, ex, q, want = items[i]
+                return solve_query(q, ex['getv'], 3 * job.get('cap', cap), quick_cap=0.0, want_model=want)
+            with cf.ThreadPoolExecutor(max_workers=max(1, workers // 5)) as tp:
+                for i, s in zip(redo, tp.map(work2, redo)):
+                    s['retried'] = True; s['t'] += solved[i]['t']; solved[i] = s
         by_kernel = {}
         for (job, ex, q, want), s in zip(items, solved):
             by_kernel.setdefault(job['jid'], []).append((q, s))
